@@ -3,12 +3,14 @@
 (* each record holds the scenario, the reported outcome and the full projection  *)
 (* of dbin / dbout before and after the call.                                     *)
 (*   ret = "fail" => both data bases exactly as before          (Atomic)          *)
-(*   ret = "ok"   => dbin unchanged; dbout = old columns (names and content       *)
+(*   ret = "ok"   => each data base = its old columns (names and content          *)
 (*                   untouched; a role may only be lost to the outputs, as the    *)
 (*                   naming convention documents) + exactly the documented number *)
-(*                   of new, uniquely named columns carrying the prefix (Exact)   *)
-(*   an injected fault must be reported as a failure (entry points with an error  *)
-(*   code only: krigtest returns a result structure and no code)                  *)
+(*                   of new, uniquely named columns carrying the prefix (Exact);  *)
+(*                   the documented numbers come from Calculator.tla (permanent   *)
+(*                   groups of the profile, per data base)                        *)
+(*   an injected fault that struck, or an input reaching an error branch of a     *)
+(*   stage, must be reported as a failure (entry points with an error code only)  *)
 EXTENDS Integers, Sequences, FiniteSets, TLC, Json, IOUtils
 
 Log == ndJsonDeserialize(IOEnv.CALCLOG)
@@ -16,32 +18,47 @@ VARIABLE k
 
 SameDb(a, b) == a.nech = b.nech /\ a.cols = b.cols
 IsPrefixOf(p, q) == Len(p) <= Len(q) /\ SubSeq(q, 1, Len(p)) = p
-Injected(f) == f \in {"after_check", "after_preprocess", "after_run", "addvar1", "addvar2", "addvar3"}
+Injected(f) == f \in {"after_check", "after_preprocess", "after_run", "addvar1", "addvar2", "addvar3", "addvar4"}
+Refused(f)  == f \in {"check_r1", "run_r1"}
+
+\* pre + nnew documented new columns = post ?  (tags prefixed by t)
+Grown(pre, post, nnew, prefix, t) ==
+  LET old == pre.cols
+      new == post.cols
+      n0 == Len(old)
+      newRoles == {new[i].role : i \in (n0 + 1)..Len(new)}
+  IN (IF post.nech = pre.nech THEN {} ELSE {t \o "-nech"})
+    \cup (IF Len(new) = n0 + nnew THEN {} ELSE {t \o "-new-count"})
+    \cup (IF Len(new) >= n0 /\ \A i \in 1..n0 : new[i].name = old[i].name THEN {} ELSE {t \o "-old-names"})
+    \cup (IF Len(new) >= n0 /\ \A i \in 1..n0 : new[i].h = old[i].h THEN {} ELSE {t \o "-old-values"})
+    \cup (IF Len(new) >= n0 /\ \A i \in 1..n0 :
+               \/ (new[i].role = old[i].role /\ new[i].rank = old[i].rank)
+               \/ (new[i].role = "none" /\ old[i].role \in newRoles)
+          THEN {} ELSE {t \o "-roles"})
+    \cup (IF Len(new) >= n0 /\ \A i \in (n0 + 1)..Len(new) :
+               /\ IsPrefixOf(prefix, new[i].name)
+               /\ \A j \in 1..Len(new) : j # i => new[j].name # new[i].name
+          THEN {} ELSE {t \o "-new-names"})
+
+\* what differs between two states of a data base that should be identical (tags prefixed by t):
+\* the columns (count or names), else the roles, and / or the contents
+Differs(a, b, t) ==
+  IF SameDb(a, b) THEN {}
+  ELSE IF a.nech # b.nech \/ Len(a.cols) # Len(b.cols) \/ \E i \in 1..Len(a.cols) : a.cols[i].name # b.cols[i].name
+       THEN {t \o "-columns"}
+  ELSE (IF \E i \in 1..Len(a.cols) : a.cols[i].role # b.cols[i].role \/ a.cols[i].rank # b.cols[i].rank THEN {t \o "-roles"} ELSE {})
+       \cup (IF \E i \in 1..Len(a.cols) : a.cols[i].h # b.cols[i].h THEN {t \o "-values"} ELSE {})
 
 Fails(r) ==
-  LET old == r.out_pre.cols
-      post == r.out_post.cols
-      n0 == Len(old)
-      newRoles == {post[i].role : i \in (n0 + 1)..Len(post)}
-  IN
   IF r.ret = "fail"
-  THEN (IF r.same \/ SameDb(r.in_pre, r.in_post) THEN {} ELSE {"atomic-dbin"})
-    \cup (IF SameDb(r.out_pre, r.out_post) THEN {} ELSE {"atomic-dbout"})
-  ELSE (IF r.same \/ SameDb(r.in_pre, r.in_post) THEN {} ELSE {"exact-dbin-changed"})
-    \cup (IF Injected(r.scen.fault) /\ ~r.second /\ ~r.noerrcode /\ ~(r.scen.fault \in {"addvar1", "addvar2", "addvar3"} /\ r.addvar_visits < 1)
+  THEN (IF r.same THEN {} ELSE Differs(r.in_pre, r.in_post, "atomic-dbin"))
+    \cup Differs(r.out_pre, r.out_post, "atomic-dbout")
+  ELSE (IF r.same THEN {}
+        ELSE IF r.scen.exp_in = 0 THEN Differs(r.in_pre, r.in_post, "exact-dbin")
+        ELSE Grown(r.in_pre, r.in_post, r.scen.exp_in, r.prefix_in, "exact-dbin"))
+    \cup Grown(r.out_pre, r.out_post, r.scen.exp_out, r.prefix, "exact")
+    \cup (IF ~r.noerrcode /\ ((Injected(r.scen.fault) /\ ~r.second /\ r.struck) \/ Refused(r.scen.fault))
           THEN {"failure-reported-as-success"} ELSE {})
-    \cup (IF r.out_post.nech = r.out_pre.nech THEN {} ELSE {"exact-nech"})
-    \cup (IF Len(post) = n0 + r.expected_new THEN {} ELSE {"exact-new-count"})
-    \cup (IF Len(post) >= n0 /\ \A i \in 1..n0 : post[i].name = old[i].name /\ post[i].h = old[i].h
-          THEN {} ELSE {"exact-old-columns"})
-    \cup (IF Len(post) >= n0 /\ \A i \in 1..n0 :
-               \/ (post[i].role = old[i].role /\ post[i].rank = old[i].rank)
-               \/ (post[i].role = "none" /\ old[i].role \in newRoles)
-          THEN {} ELSE {"exact-roles"})
-    \cup (IF Len(post) >= n0 /\ \A i \in (n0 + 1)..Len(post) :
-               /\ IsPrefixOf(r.prefix, post[i].name)
-               /\ \A j \in 1..Len(post) : j # i => post[j].name # post[i].name
-          THEN {} ELSE {"exact-new-names"})
 
 Init == k = 0
 Next == /\ k < Len(Log)
